@@ -5,8 +5,6 @@ cd "$(dirname "$0")/.."
 export GOFLAGS=-mod=mod GOPROXY=off GOSUMDB=off GOTOOLCHAIN=local CGO_ENABLED=0
 want="${1:-all}"
 scratch="${VERIF_SCRATCH:-/var/tmp/verif-scratch.$$}"
-trap 'rm -rf "$scratch"' EXIT
-mkdir -p "$scratch"
 one() {
   p=$1; prop=$(basename $(dirname $p)); d="$scratch/$(echo $p | tr '/.' '__')"
   mkdir -p "$d"
@@ -22,7 +20,9 @@ one() {
   fi
   rm -rf "$d"
 }
-if [ "$1" = "--one" ]; then scratch=$3; one "$2"; trap - EXIT; exit 0; fi
+if [ "$1" = "--one" ]; then scratch=$3; one "$2"; exit 0; fi
+trap 'rm -rf "$scratch"' EXIT
+mkdir -p "$scratch"
 list=""
 for dir in selftest/C*; do
   prop=$(basename $dir)
